@@ -345,6 +345,7 @@ def c08_cfgs(tier):
                                    'FsAS', 'FswAS', 'AsFS', 'AswFwS', 'FsS', 'AsRS', 'AsRsS', 'RsS', 'AsRwsS', 'AsRa',
                                    'EswgS', 'Eswwg', 'Esga', 'EswgsS', 'EswSAsS',
                                    'GsS', 'Gsa', 'GsgS', 'GsAsS', 'GswAsS', 'Gs', 'HsS', 'Hsa', 'HsgS', 'HsAsS', 'Hs',
+                                   'Hss', 'HssS', 'HsAss', 'EswsS', 'Eswss',
                                    'AOAsS', 'AsSOAsS', 'AsSOsS', 'AO', 'AsSO', 'AOsS', 'AsOAsS',
                                    'As0B', 'Bs0A', 'As0S', 'As0a', 'As0sS', 'As0AsS',
                                    'KsS', 'Ksa', 'KswgS', 'KswS', 'Ksw', 'KswAsS', 'JsS', 'Jsa', 'Js', 'JswS', 'Js2sS', 'TsS', 'AsTS', 'AsTsS', 'TsAsS', 'AswTa']
